@@ -735,36 +735,51 @@ fn s_eq<L: Len, const A: usize, const N: usize, const M: usize>() {
     kani::cover!(!eq && ma.n == mb.n, "same length, different contents");
 }
 
-/// C13: refused push(char) / push_str write nothing; a later fitting push_str lands right behind the old contents
-fn s13_push<L: Len, const A: usize, const N: usize, const M: usize>() {
+/// C13: a refused push(char) writes nothing (also when some bytes of the encoding would fit); a later fitting
+/// push_str lands right behind the old contents
+fn s13_push_char<L: Len, const A: usize, const N: usize, const M: usize>() {
     let Some((v, raw)) = map_str::<L, A, N>() else { return };
     let mut m = SModel::<M>::of(v);
-    let use_char: bool = kani::any();
-    let (buf, k) = if use_char {
-        let c: char = kani::any();
-        let (e, k) = enc_utf8(c);
-        kani::assume(k > m.cap - m.n);
-        let r = v.push(c);
-        assert!(r.is_err(), "C13: push(char) accepted a char that does not fit");
-        ([e[0], e[1], e[2], e[3], 0, 0, 0, 0], k)
-    } else {
-        let (buf, k) = any_str2();
-        kani::assume(k > m.cap - m.n);
-        let s = unsafe { core::str::from_utf8_unchecked(&buf[..k]) };
-        let r = v.push_str(s);
-        assert!(r.is_err(), "C13: push_str accepted a string that does not fit");
-        (buf, k)
-    };
-    kani::cover!(use_char && m.n < m.cap, "refused char, some bytes free");
-    kani::cover!(!use_char && m.n < m.cap, "refused str, some bytes free");
+    let c: char = kani::any();
+    let (_, k) = enc_utf8(c);
+    kani::assume(k > m.cap - m.n); // does not fit
+    kani::cover!(m.n < m.cap, "refused char, some bytes free");
+    let r = v.push(c);
+    assert!(r.is_err(), "C13: push(char) accepted a char that does not fit");
     check_str::<L, A, M>(v, &m, raw);
-    // later operation: an ASCII string filling the room exactly is accepted
+    s13_later::<L, A, M>(v, &mut m);
+}
+
+/// C13: a refused push_str writes nothing (also when a prefix would fit); later operations unaffected
+fn s13_push_str<L: Len, const A: usize, const N: usize, const M: usize>() {
+    let Some((v, raw)) = map_str::<L, A, N>() else { return };
+    let mut m = SModel::<M>::of(v);
+    let (buf, k) = any_str2();
+    kani::assume(k > m.cap - m.n); // does not fit
+    kani::cover!(m.n < m.cap, "refused str, some bytes free");
+    let s = unsafe { core::str::from_utf8_unchecked(&buf[..k]) };
+    let r = v.push_str(s);
+    assert!(r.is_err(), "C13: push_str accepted a string that does not fit");
+    check_str::<L, A, M>(v, &m, raw);
+    s13_later::<L, A, M>(v, &mut m);
+}
+
+/// later operation after a refusal: an ASCII string filling the room exactly is accepted and lands behind the old
+/// contents (observers only; the full check with re-validation was done right after the refused call)
+fn s13_later<L: Len, const A: usize, const M: usize>(v: &mut FlatString<L>, m: &mut SModel<M>) {
     let room = m.cap - m.n;
     let fill = [b'a'; 8];
     let r2 = v.push_str(unsafe { core::str::from_utf8_unchecked(&fill[..room]) });
     assert!(r2.is_ok(), "C13: fitting push_str refused after a refused push");
     m.append(&fill, room);
-    check_str::<L, A, M>(v, &m, raw);
+    assert!(v.len() == m.n && v.is_full(), "C13: len after the later push_str");
+    let s = v.as_str().as_bytes();
+    assert!(s.len() == m.n, "C13: as_str().len() after the later push_str");
+    let mut i = 0;
+    while i < M {
+        if i < m.n { assert!(s[i] == m.by[i], "C13: contents after the later push_str"); }
+        i += 1;
+    }
 }
 
 // ---------------------------------------------------------------------------------------------------------------
@@ -850,13 +865,15 @@ sh!(c11_str_u8_push, s_push, u8, 1, 5, 8, 10);
 sh!(c11_str_u8_push_str, s_push_str, u8, 1, 5, 8, 10);
 sh!(c11_str_u8_clear, s_clear, u8, 1, 5, 8, 10);
 sh!(c11_str_u8_eq, s_eq, u8, 1, 5, 8, 10);
-sh!(c13_str_u8_push, s13_push, u8, 1, 5, 8, 10);
+sh!(c13_str_u8_push_char, s13_push_char, u8, 1, 5, 8, 10);
+sh!(c13_str_u8_push_str, s13_push_str, u8, 1, 5, 8, 10);
 
 // FlatString<u16>: ALIGN 2, data at 2, N = 6 -> capacity <= 4
 sh!(c11_str_u16_state, s_state, u16, 2, 6, 8, 10);
 sh!(c11_str_u16_push, s_push, u16, 2, 6, 8, 10);
 sh!(c11_str_u16_push_str, s_push_str, u16, 2, 6, 8, 10);
-sh!(c13_str_u16_push, s13_push, u16, 2, 6, 8, 10);
+sh!(c13_str_u16_push_char, s13_push_char, u16, 2, 6, 8, 10);
+sh!(c13_str_u16_push_str, s13_push_str, u16, 2, 6, 8, 10);
 
 /// FlatVec<u8,u8> over a 300-byte buffer: 299 element slots > u8::MAX.  BOUNDED: one buffer size (300), only the
 /// length byte symbolic (all 256 values; every one of them is a valid state), data bytes zero.
